@@ -161,3 +161,137 @@ func c03Refs(r *Run) {
 		}
 	}
 }
+
+// wrapRefSpec: what the property's clause "REFERENCE base ranges are clipped to the window, re-based,
+// dropped when disjoint" demands for a WRAP-AROUND window [a, L) ++ [0, b) (0 <= b < a <= L) — an
+// independent statement, not the code's.  A range [lo, hi) (0-based, half-open) meets the window in
+// at most two pieces: its part inside the tail [a, L), which moves to x - a, and its part inside the
+// head [0, b), which moves to x + (L - a) — together x -> (x - a) mod L, the map of the residues
+// (C03 slice_wrap_map).  The pieces are listed in window order; a range that runs across the origin
+// of the record (it contains residue L-1 and residue 0) stays ONE range in the window, because the
+// two pieces abut at window position L - a.  A range disjoint from the window is dropped.
+func wrapRefSpec(L, a, b int, ranges [][2]int) [][2]int {
+	var out [][2]int
+	for _, x := range ranges {
+		lo, hi := x[0], x[1]
+		var pieces [][2]int
+		if tl, th := maxInt(lo, a), minInt(hi, L); tl < th {
+			pieces = append(pieces, [2]int{tl - a, th - a})
+		}
+		if hl, hh := maxInt(lo, 0), minInt(hi, b); hl < hh {
+			p := [2]int{hl + L - a, hh + L - a}
+			if n := len(pieces); n > 0 && pieces[n-1][1] == p[0] {
+				pieces[n-1][1] = p[1]
+			} else {
+				pieces = append(pieces, p)
+			}
+		}
+		out = append(out, pieces...)
+	}
+	return out
+}
+
+// c03RefsWrap: the REFERENCE clause of C03 for wrap-around windows, on gts.Slice of a GenBank record
+// (op gb.slice on both sides, so the model is tied on the same inputs).  The real code rotates the
+// residues and the table but not the header, then clips the UN-rotated ranges against [0, L-a+b):
+// known finding K3R (Gts.C03.slice_wrap_refs_full_refuted).  Every failure of this oracle is of that
+// shape (a well-formed reference of a record cut by a wrap-around window) and is attributed to K3R;
+// for a forward window the same comparison is made without attribution.
+func c03RefsWrap(r *Run) {
+	n := 400
+	if r.tier == "thorough" {
+		n = 4000
+	}
+	res := []byte("acgtacgtacgtacgtacgtacgtacgtacgtacgtacgt")
+	for t := 0; t < n; t++ {
+		L := r.rng.rangeInt(4, 30)
+		a := r.rng.rangeInt(1, L)
+		b := r.rng.intn(a)
+		fwd := r.rng.intn(5) == 0
+		if fwd {
+			a, b = b, a
+		}
+		if t == 0 {
+			L, a, b, fwd = 10, 8, 4, false
+		}
+		nrefs := r.rng.rangeInt(1, 3)
+		if t == 0 {
+			nrefs = 2 // the witness of K3R: (bases 9 to 10) inside the window, (bases 5 to 6) outside it
+		}
+		f := seqio.GenBankFields{LocusName: "X", Molecule: gts.DNA, Date: seqio.Date{Year: 2020, Month: 2, Day: 29}}
+		var all [][][2]int
+		for i := 0; i < nrefs; i++ {
+			k := r.rng.rangeInt(1, 2)
+			if t == 0 {
+				k = 1
+			}
+			var rs [][2]int
+			parts := make([]string, k)
+			for j := range parts {
+				cands := []int{1, a, a + 1, b, b + 1, L, r.rng.rangeInt(1, L)}
+				s := cands[r.rng.intn(len(cands))]
+				if s < 1 {
+					s = 1
+				}
+				if s > L {
+					s = L
+				}
+				e := r.rng.rangeInt(s, L)
+				if t == 0 {
+					s, e = []int{9, 5}[i%2], []int{10, 6}[i%2]
+				}
+				rs = append(rs, [2]int{s - 1, e})
+				parts[j] = fmt.Sprintf("%d to %d", s, e)
+			}
+			all = append(all, rs)
+			f.References = append(f.References, seqio.Reference{Number: i + 1, Title: "t", Info: "(bases " + strings.Join(parts, "; ") + ")"})
+		}
+		gb := seqio.GenBank{Fields: f, Origin: seqio.NewOrigin(res[:L])}
+		line := fmt.Sprintf("gb.slice %s %d %d", encRecord(gb), a, b)
+		if out := r.op(line); out == "PANIC" || out == "ERR" {
+			r.fail(Failure{Oracle: "gts.Slice of a GenBank record on a window inside the sequence returns a GenBank record", Op: line, Got: out})
+			continue
+		}
+		sliced := gts.Slice(gb, a, b)
+		var got []string
+		for _, ref := range sliced.Info().(seqio.GenBankFields).References {
+			got = append(got, ref.Info)
+		}
+		var want []string
+		for _, rs := range all {
+			var pieces [][2]int
+			if fwd {
+				for _, x := range rs {
+					if lo, hi := maxInt(x[0], a), minInt(x[1], b); lo < hi {
+						pieces = append(pieces, [2]int{lo - a, hi - a})
+					}
+				}
+			} else {
+				pieces = wrapRefSpec(L, a, b, rs)
+			}
+			if len(pieces) == 0 {
+				continue
+			}
+			ps := make([]string, len(pieces))
+			for i, p := range pieces {
+				ps[i] = fmt.Sprintf("%d to %d", p[0]+1, p[1])
+			}
+			want = append(want, "(bases "+strings.Join(ps, "; ")+")")
+		}
+		kind := "wrap"
+		if fwd {
+			kind = "forward"
+		}
+		r.count("slice-refs/record/" + kind)
+		r.eval("slice-refs-record|"+line, true)
+		if g, w := strings.Join(got, " | "), strings.Join(want, " | "); g != w {
+			fl := Failure{Oracle: "slice: REFERENCE ranges of a record are clipped to the window [a,L)++[0,b), re-based by (x-a) mod L, dropped when disjoint (" + kind + " window)",
+				Op: line, Got: g, Want: w}
+			if !fwd {
+				fl.Finding = "K3R"
+				r.count("slice-refs/record/wrap/K3R")
+			}
+			r.fail(fl)
+		}
+	}
+}
